@@ -32,14 +32,20 @@ def cases(tier, seed):
             if name in ("rosenbrock", "beale") and n < 2:
                 continue
             for r in range(reps):
-                for kind in ("uniform", "lattice") + (("near_singular",) if name == "griewank" else ()):
+                for kind in ("uniform", "lattice", "near_integer") + (("near_singular",) if name == "griewank" else ()):
                     yield {"name": name, "n": n, "seed": subseed("C19", seed, name, n, r, kind) % (2**31), "kind": kind}
 
 
-def check_point(f, g, x, out: Outcome, name):
-    """The oracle on one point. Returns True when the point was judged."""
-    fx = f(x.copy())
-    gx = g(x.copy())
+def check_point(f, g, x, out: Outcome, name, buf=None):
+    """The oracle on one point. Returns True when the point was judged.
+    buf: a work array the caller reuses for every point (overwritten in place), as simulation codes do."""
+    if buf is not None and buf.shape == x.shape:
+        buf[:] = x
+        fx = f(buf)
+        gx = np.array(g(buf), copy=True)
+    else:
+        fx = f(x.copy())
+        gx = g(x.copy())
     ok_scalar = np.isscalar(fx) or (isinstance(fx, np.ndarray) and fx.ndim == 0)
     if not ok_scalar or isinstance(fx, (complex, np.complexfloating)) or not np.isfinite(float(fx)):
         out.violate("value_not_real_scalar", f"{name}({x!r}) returned {fx!r}", fn=name)
@@ -67,6 +73,7 @@ def run(spec):
     g = getattr(lbfgsb, name + "_grad")
     rng = np.random.default_rng(spec["seed"])
     generic = 0
+    buf = np.empty(n) if spec["seed"] % 2 == 0 else None  # half of the cases pass one reused work array
     for _ in range(NPTS):
         if spec["kind"] == "uniform":
             x = rng.uniform(-5, 5, n)
@@ -77,6 +84,9 @@ def run(spec):
             root = (np.pi / 2 + np.pi * int(rng.integers(-1, 1))) * np.sqrt(i + 1)
             if abs(root) <= 5:
                 x[i] = root + float(rng.choice([-1.0, 1.0]) * np.exp(rng.uniform(np.log(1e-5), np.log(5e-2)))) * np.sqrt(i + 1)
+        elif spec["kind"] == "near_integer":
+            # close to, not on, the integer lattice (where the trigonometric terms vanish)
+            x = rng.integers(-5, 6, n) + rng.choice([-1.0, 1.0], n) * np.exp(rng.uniform(np.log(1e-9), np.log(1e-3), n))
         else:
             x = rng.integers(-20, 21, n) / 4.0
         if name == "ackley" and np.linalg.norm(x) < 0.5:
@@ -85,8 +95,10 @@ def run(spec):
         if name == "griewank" and np.any(np.abs(np.cos(x / np.sqrt(np.arange(1, n + 1)))) < 1e-6):
             out.count("points_excluded_singular")
             continue
-        check_point(f, g, x, out, name)
+        check_point(f, g, x, out, name, buf=buf)
         out.count("points_checked")
+        if buf is not None:
+            out.count("points_passed_in_a_reused_buffer")
         if not np.any(x == np.round(x)):
             generic += 1
             out.count("points_generic")
